@@ -2,6 +2,43 @@
 //! atomic operation until the schedule names it. One granted turn = one atomic operation.
 use std::sync::{Arc, Condvar, Mutex};
 
+// ------------------------------------------------------------------ value-level trace of the hooked atomics
+// Every scheduled thread reports each hooked atomic operation it performs (kind, cell, value before, value after,
+// whether it wrote) through `tower_resilience_core::verif::set_observer`; scenario bodies add their own markers
+// (begin / end of an API call) with `atrace_push`. Under the baton scheduler exactly one thread runs between two
+// yield points, so the order of the entries is the order in which the operations took effect.
+static ATRACE: Mutex<Vec<String>> = Mutex::new(Vec::new());
+static CELLS: Mutex<Vec<usize>> = Mutex::new(Vec::new());
+pub fn atrace_push(s: String) {
+    ATRACE.lock().unwrap_or_else(|e| e.into_inner()).push(s);
+}
+pub fn atrace_take() -> Vec<String> {
+    CELLS.lock().unwrap_or_else(|e| e.into_inner()).clear();
+    std::mem::take(&mut *ATRACE.lock().unwrap_or_else(|e| e.into_inner()))
+}
+fn cell_name(addr: usize, wide: bool) -> String {
+    let mut c = CELLS.lock().unwrap_or_else(|e| e.into_inner());
+    let ix = match c.iter().position(|a| *a == addr) {
+        Some(i) => i,
+        None => {
+            c.push(addr);
+            c.len() - 1
+        }
+    };
+    format!("{}{}", if wide { "w" } else { "n" }, ix)
+}
+fn install_observer(tid: usize) {
+    tower_resilience_core::verif::set_observer(Some(Box::new(move |e| {
+        let k = match e.kind {
+            "load" => "l",
+            "store" => "s",
+            "cas" => "c",
+            _ => "u",
+        };
+        atrace_push(format!("a{},{},{},{},{},{}", tid, k, cell_name(e.cell, e.wide), e.old, e.new, if e.ok { 1 } else { 0 }));
+    })));
+}
+
 struct St {
     turn: Option<usize>,
     at_yield: Vec<bool>,
@@ -84,7 +121,9 @@ pub fn run_scheduled_full(
                     st.at_yield[tid] = false;
                 })));
             }
+            install_observer(tid);
             let r = std::panic::catch_unwind(std::panic::AssertUnwindSafe(body));
+            tower_resilience_core::verif::set_observer(None);
             tower_resilience_core::verif::set_yield_hook(None);
             tower_resilience_core::verif::set_inner_yield_hook(None);
             let mut st = sh2.m.lock().unwrap();
